@@ -241,11 +241,14 @@ def _first_run_diff(a, b):
     return {"a": a.get("runs"), "b": b.get("runs")}
 
 
+MIN_CASES = 150  # a loaded machine does not shrink what is explored (time cap: 10x the budget)
+
+
 def run(limit_s, seed):
     rng = random.Random(seed)
     t0 = time.time()
     n = skipped = 0
-    while time.time() - t0 < limit_s:
+    while time.time() - t0 < limit_s or (n < MIN_CASES and time.time() - t0 < 10 * limit_s):
         spec = gen_abstract(rng)
         n += 1
         diff = run_spec(spec, seed + n)
